@@ -57,7 +57,7 @@ def _run_one(args):
         try:
             mod.run(rep)
             for rule, n in rep.floors.items():
-                if rep.rules[rule]["instances"] < n:
+                if rep.rules[rule]["instances"] < n and not rep.findings:
                     raise AnalysisError(f"floor {rule}")
             rules = sorted({f.rule for f in rep.findings})
             detail = "; ".join(f"{f.rule}:{f.construct}" for f in rep.findings[:4])
